@@ -509,7 +509,6 @@ def oracle_check(spec, obs):
 
 def signature_of(spec, what):
     if spec["kind"] == "ugla":
-        loc = np.ones(spec["n"]) * np.array(spec["prior"]["loc"], dtype=float)
         return SIG_UGLA[spec["iface"]] if spec.get("Dloc_nonzero") else \
             ("experimental.UGLA.step" if spec["iface"] == "exp" else "sampler.UGLA._sample") + "|" + what
     site = "experimental.LinearRTO.step" if spec["iface"] == "exp" else "sampler.LinearRTO._sample"
@@ -555,11 +554,6 @@ def gen_prior(rng, n, cell):
     return {"kind": "joint", "blocks": blocks}
 
 
-def well_conditioned(spec, obs_like=None):
-    """cond(H) of the user-level posterior small enough for the tolerances; GMRF needs P_op, taken from a dry build"""
-    return True
-
-
 def gen_rto_spec(rng, idx, iface, target, mkind, noise_cells, prior_cell, shape_kind):
     n_min = 3 if prior_cell[0] == "gmrf" else 2
     if prior_cell[0] == "gmrf" and prior_cell[2] == 2:
@@ -580,7 +574,6 @@ def gen_rto_spec(rng, idx, iface, target, mkind, noise_cells, prior_cell, shape_
                 break
         liks.append({"A": A, "b": [float(rng.randint(-5, 5)) for _ in range(m)], "noise": gen_gspec(rng, m, f, s)})
     prior = gen_prior(rng, n, prior_cell)
-    p_rows = sum(len(l["b"]) for l in liks)
     spec = {"kind": "rto", "iface": iface, "target": target, "mkind": mkind, "n": n, "liks": liks, "prior": prior,
             "xcurs": [[0.0] * n, rand_dyadic_vec(rng, n), [float(rng.randint(-30, 30)) for _ in range(n)]],
             "shape": shape_kind, "idx": idx}
@@ -734,7 +727,7 @@ def rto_cases(spec, obs, fail):
         l = spec["liks"][0]
         body = "check_tuple %s %s %s %s %s %s %s %s %s %s" % (tol, cnat(n), qv(l["b"]), qm(l["A"]), c_spform(l["noise"]),
                                                                qv(pr["mean"]), c_spform(pr["g"]), qv(obs["b_tild"]), qm(obs["M_fwd"]), qm(obs["M_adj"]))
-        add("precompute", body, kind="EXACT" if exact else "DECISION")
+        add("precompute-tuple", body)
     body = "check_precompute %s %s %s pr %s %s %s" % (tol, cnat(n), c_liks_obs(spec, obs), qv(obs["b_tild"]), qm(obs["M_fwd"]), qm(obs["M_adj"]))
     add("precompute", c_prior_obs(spec, obs, body), extra={"exact": exact})
     # 3. every transition returns a point satisfying the normal equations of the model's (M, b_tild)
@@ -830,35 +823,24 @@ def mark_dloc(spec, D):
 
 # ---------------------------------------------------------------------------------------------
 def build_rto(cuqi, rng, cellspec):
-    """generate values inside one cell until the posterior is well conditioned; returns (spec, obs)"""
-    for attempt in range(30):
+    """generate values inside one cell until the user-level posterior is well conditioned; returns (spec, obs)"""
+    for attempt in range(40):
         spec = gen_rto_spec(rng, *cellspec)
-        p_rows = sum(len(l["b"]) for l in spec["liks"])
-        obs = None
-        try:
-            with quiet():
-                tgt = mk_target(cuqi, spec)
-            # dry: P_op for GMRF and total length of b_tild
-            if spec["prior"]["kind"] == "gmrf":
-                Pop = dense(tgt.prior._prec_op.get_matrix()).tolist()
-            else:
-                Pop = None
-            H, r = user_posterior(spec, {"Pop": Pop})
-        except Exception:
-            raise
-        if np.linalg.cond(H) > 2e3:
-            continue
-        ptot = None
-        spec["estar"] = None
-        # length of b_tild is only known from the sampler; estimate from the spec
         pr = spec["prior"]
+        Pop = None
+        if pr["kind"] == "gmrf":
+            with quiet():
+                Pop = dense(mk_prior(cuqi, spec)._prec_op.get_matrix()).tolist()
+        H, r = user_posterior(spec, {"Pop": Pop})
+        if not np.all(np.isfinite(H)) or np.linalg.cond(H) > 2e3:
+            continue
         rows_prior = spec["n"] if pr["kind"] != "joint" else sum(len(b["S"]) for b in pr["blocks"])
-        spec["estar"] = rand_dyadic_vec(rng, p_rows + rows_prior, 2, -2, 2)
-        spec["estar2"] = rand_dyadic_vec(rng, p_rows + rows_prior, 2, -2, 2)
+        p = sum(len(l["b"]) for l in spec["liks"]) + rows_prior
+        spec["estar"] = rand_dyadic_vec(rng, p, 2, -2, 2)
+        spec["estar2"] = rand_dyadic_vec(rng, p, 2, -2, 2)
         if spec["estar2"] == spec["estar"]:
             spec["estar2"][0] += 1.0
-        obs = observe(cuqi, spec)
-        return spec, obs
+        return spec, observe(cuqi, spec)
     raise RuntimeError("could not generate a well-conditioned configuration for cell %r" % (cellspec,))
 
 
